@@ -1,6 +1,7 @@
 package clock
 
 import (
+	"github.com/echovault/sugardb/verifhook"
 	"os"
 	"strings"
 	"time"
@@ -22,6 +23,9 @@ func NewClock() Clock {
 type RealClock struct{}
 
 func (RealClock) Now() time.Time {
+	if verifhook.Enabled {
+		return time.Now().Add(verifhook.ClockOffset())
+	}
 	return time.Now()
 }
 
